@@ -2060,6 +2060,22 @@ zip_read_data_zipx_lzma_alone(struct archive_read *a, const void **buff,
 	zip->entry_compressed_bytes_read += to_consume;
 	zip->entry_uncompressed_bytes_read += zip->zipx_lzma_stream.total_out;
 
+	/*
+	 * When all of the entry has come out, the decoder may have
+	 * stopped short of the last compressed byte (fed in small
+	 * pieces it finishes the output first, and with no room for
+	 * output it takes no more input): skip what is left, or the
+	 * next call would stall.
+	 */
+	if (zip->entry_bytes_remaining > 0 &&
+	    zip->entry_uncompressed_bytes_read >=
+	    zip->entry->uncompressed_size) {
+		__archive_read_consume(a, zip->entry_bytes_remaining);
+		zip->entry_compressed_bytes_read +=
+		    zip->entry_bytes_remaining;
+		zip->entry_bytes_remaining = 0;
+	}
+
 	if(zip->entry_bytes_remaining == 0) {
 		zip->end_of_entry = 1;
 	}
